@@ -328,6 +328,7 @@ def run(tier):
     rule_R9(res, prog)
     rule_R10(res, prog)
     rule_R11(res, prog)
+    rule_R12(res, prog)
     return res.finish()
 
 
@@ -927,3 +928,111 @@ def rule_R11(res, prog):
                          "array" % (fn.relfile, ln, call.get("fn"), size, arr[0]), file=fn.relfile, line=ln)
         res.instance(rid, "psVerifySig:%s %s(%s[%d], msgInLen)" % (ln, call.get("fn"), arr[0], size), ok, finding=f_)
     res.floor(rid, 2)
+
+
+def rule_R12(res, prog):
+    """'accepts iff valid ... over-long inputs': framing and range conditions that the verifiers must establish before they can
+    say `valid`, each as a must-hold fact or a must-pass test on every path to the accepting exit:
+    (a) psEccDsaVerify sets *status = 1 only when the input ended exactly where Ecdsa-Sig-Value { r, s } ended;
+    (b) psRsaPssVerify performs the RSA operation only on a signature as long as the modulus;
+    (c) pkcs1UnpadExt returns success only after the padding string was shown to be at least 8 octets long;
+    (d) eccTestPoint returns only with both coordinates compared `< prime` (a coordinate x + p is not an encoding of x);
+    (e) psVerifySig hands its const signature parameter to no callee through a cast that strips the const (the RSA public
+        operation works in place: the caller's signature - the one kept in a parsed certificate - would be destroyed and a
+        second verification of the same valid signature would fail)."""
+    from sa import cfgutil as cu
+    rid = "C11.R12"
+    res.rule(rid, "verifiers: exact signature framing (ECDSA, PSS), minimum PKCS#1 padding, coordinates below p, caller's signature left intact")
+
+    def fn_of(name):
+        lst = prog.by_name.get(name)
+        return lst[0] if lst else None
+    # (a)
+    fn = fn_of("psEccDsaVerify")
+    if fn is not None:
+        gf = cu.guard_facts(fn)
+        for b in fn.blocks:
+            for i, ln, x in cu.block_exprs(b):
+                for m in walk(x):
+                    if m.get("k") == "bin" and m["op"] == "=" and cu.ftext(strip(m["l"]) or {}).replace("(", "").replace(")", "") == "*status" and \
+                            (strip(m["r"]) or {}).get("k") == "int" and strip(m["r"])["v"] == 1:
+                        fs = gf.get(b["id"], ())
+                        ok = any((txt == "(c != end)" and not tr) or (txt == "(c == end)" and tr) for (txt, tr) in fs)
+                        f_ = None
+                        if not ok:
+                            f_ = Finding(PROP, rid, fn.name, "ECDSA signature accepted without having consumed the whole input",
+                                         "%s:%s psEccDsaVerify(): *status = 1 is reachable without the fact `c == end`: SEQUENCE { r, s } followed by "
+                                         "arbitrary octets verifies (over-long input accepted)" % (fn.relfile, ln), file=fn.relfile, line=ln)
+                        res.instance(rid, "psEccDsaVerify:%s valid only if the input ended with s" % ln, ok, finding=f_)
+    # (b)
+    fn = fn_of("psRsaPssVerify")
+    if fn is not None:
+        gf = cu.guard_facts(fn)
+        for b, ln, c in fn.calls():
+            if c.get("fn") == "psRsaCrypt":
+                fs = gf.get(b["id"], ())
+                ok = any((txt == "(sigLen != key->keysize)" and not tr) or (txt == "(sigLen == key->keysize)" and tr) for (txt, tr) in fs)
+                f_ = None
+                if not ok:
+                    f_ = Finding(PROP, rid, fn.name, "PSS signature length not compared with the modulus length",
+                                 "%s:%s psRsaPssVerify(): psRsaCrypt() runs on a signature whose length was not shown equal to key->keysize: "
+                                 "`00 00 00 || sig` (or a signature with its leading zero stripped) verifies; RFC 8017 8.1.2 step 1" % (
+                                     fn.relfile, ln), file=fn.relfile, line=ln)
+                res.instance(rid, "psRsaPssVerify:%s RSA operation under sigLen == modulus length" % ln, ok, finding=f_)
+    # (c)
+    fn = fn_of("pkcs1UnpadExt")
+    if fn is not None:
+        def padtest(x):
+            t = cu.ftext(x)
+            return "(in + 2)" in t and "< 8" in t
+        esc = cu.escapes(fn, (fn.entry, None), padtest,
+                         is_target=lambda x: x.get("k") == "ret" and (strip(x.get("e")) or {}).get("k") == "int" and strip(x["e"])["v"] == 0)
+        f_ = None
+        if esc is not None:
+            f_ = Finding(PROP, rid, fn.name, "PKCS#1 v1.5 block accepted without a minimum padding length",
+                         "%s:%s pkcs1UnpadExt(): the success return is reachable (via lines %s) without the test `padding length < 8`: "
+                         "00 || BT || <fewer than 8 octets> || 00 || D is unpadded successfully" % (fn.relfile, esc[-1][1], [p_[1] for p_ in esc[-6:]]),
+                         file=fn.relfile, line=esc[-1][1])
+        res.instance(rid, "pkcs1UnpadExt: success only behind the `padding >= 8 octets` test", esc is None, finding=f_)
+    # (d)
+    fn = fn_of("eccTestPoint")
+    if fn is not None:
+        def cmpx(x):
+            return "pstm_cmp(&(P->x), prime)" in cu.ftext(x)
+
+        def cmpy(x):
+            return "pstm_cmp(&(P->y), prime)" in cu.ftext(x)
+        for (nm, pred) in (("x", cmpx), ("y", cmpy)):
+            esc = cu.escapes(fn, (fn.entry, None), pred, is_target=cu.success_ret)
+            f_ = None
+            if esc is not None:
+                f_ = Finding(PROP, rid, fn.name, "coordinate not compared with the field prime",
+                             "%s:%s eccTestPoint(): a return is reachable (via lines %s) without pstm_cmp(&P->%s, prime): the curve equation is "
+                             "checked modulo p only, so (Gx + p, Gy) passes as another encoding of G" % (
+                                 fn.relfile, esc[-1][1], [p_[1] for p_ in esc[-5:]], nm), file=fn.relfile, line=esc[-1][1])
+            res.instance(rid, "eccTestPoint: coordinate %s compared with the prime on every path" % nm, esc is None, finding=f_)
+    # (e)
+    fn = fn_of("psVerifySig")
+    if fn is not None:
+        consts = set(p_.get("id") for p_ in fn.params if (p_.get("t") or "").startswith("const ") and "*" in (p_.get("t") or ""))
+        bad = None
+        ncalls = 0
+        for b, ln, c in fn.calls():
+            ncalls += 1
+            for a in c.get("a", []):
+                for q in walk(a):
+                    if q.get("k") == "cast" and not q.get("imp") and "const" not in (q.get("t") or "") and "*" in (q.get("t") or ""):
+                        e = strip(q["e"])
+                        while e is not None and e.get("k") == "cast":
+                            e = strip(e["e"])
+                        if e is not None and e.get("k") == "var" and e.get("id") in consts:
+                            bad = (ln, c.get("fn"), e.get("n"))
+        f_ = None
+        if bad:
+            f_ = Finding(PROP, rid, fn.name, "const signature handed to an in-place operation",
+                         "%s:%s psVerifySig(): the const parameter `%s` is passed to %s() through a cast that strips the const; the RSA public "
+                         "key operation decrypts in place, so the caller's signature (sc->signature of a parsed certificate) is overwritten: "
+                         "verifying the same valid signature again fails, and a failed attempt with one CA key spoils the attempt with the "
+                         "next CA of the same name" % (fn.relfile, bad[0], bad[2], bad[1]), file=fn.relfile, line=bad[0])
+        res.instance(rid, "psVerifySig: const inputs reach callees as const (%d calls)" % ncalls, bad is None, finding=f_)
+    res.floor(rid, 6)
